@@ -56,4 +56,14 @@ theorem inmem_lister_eq (ks : List Key) (hs : Sorted ks) :
   funext p after limit
   simp [specLister, inmemList_eq_listPage ks hs]
 
+/-- since the repair of the seek the raft listers are the specification's lister too (plain and in-transaction) -/
+theorem raft_lister_eq (ks : List Key) (hs : Sorted ks) :
+    (fun p after limit => Except.ok (raftList ks p after limit) : Lister) = specLister ks ∧
+    (fun p after limit => Except.ok (raftTxnList ks [] p after limit) : Lister) = specLister ks := by
+  constructor
+  · funext p after limit
+    simp [specLister, raftList, raftListFrom_eq_listPage ks hs _ p after limit (raftSeek_safe p after)]
+  · funext p after limit
+    simp [specLister, raftTxnList_nil_eq_listPage ks hs p after limit (raftSeek_safe p after)]
+
 end Obao.Listing
